@@ -658,6 +658,33 @@ def apply(ex, ctx, st, f, args, dest_ty, term):
             raise Uncertified("ordering operator on non-scalar")
         return mk_bin({'lt': 'Lt', 'le': 'Le', 'gt': 'Gt', 'ge': 'Ge'}[name], a, b, ty, 'bool'), st
 
+    if dpath in ('core::cmp::PartialOrd::lt', 'core::cmp::PartialOrd::le', 'core::cmp::PartialOrd::gt', 'core::cmp::PartialOrd::ge',
+                 'core::cmp::Ord::max', 'core::cmp::Ord::min') and path == dpath:
+        # the trait's provided method on a local type: defined by the type's own partial_cmp / cmp
+        targs = [pdb.tys(t) for t in (f.get('resolved_targs') or f.get('targs') or [])]
+        sty_ = targs[0] if targs else None
+        tr_ = 'core::cmp::PartialOrd' if 'PartialOrd' in dpath else 'core::cmp::Ord'
+        im = pdb.trait_impl(tr_, sty_) if sty_ else None
+        base = 'partial_cmp' if tr_.endswith('PartialOrd') else 'cmp'
+        if im is None or (name in im['items']):
+            raise Uncertified("provided method %s on %s" % (dpath, sty_))
+        ra_, rb_ = args
+        if tr_.endswith('::Ord'):
+            ra_, rb_ = ex.new_tmp(st, args[0]), ex.new_tmp(st, args[1])
+        if im['derived']:
+            cfn_ = pdb.fn(im['items'][base]) if base in im['items'] else {'container': {'trait': tr_, 'self_ty': sty_}, 'name': base}
+            o_ = derived(ex, st, None, {'container': {'trait': tr_, 'self_ty': sty_}, 'name': base}, [ra_, rb_], f, term)
+        else:
+            o_, st = ex.call_fn(st, im['items'][base], [ra_, rb_], None, ctx['depth'] + 1)
+        if base == 'partial_cmp':
+            o_ = map_ite(o_, lambda l: l[2][0] if (l[0] == 'agg' and l[1][2] == 1) else UNDEF)
+        if name in ('max', 'min'):
+            # max returns the second argument when they compare equal, min the first
+            gt_ = map_ite(o_, lambda l: C(1 if pdb.variant_name(ORDERING, l[1][2]) == 'Greater' else 0, 'bool'))
+            return (mk_ite(gt_, args[0], args[1]) if name == 'max' else mk_ite(gt_, args[1], args[0])), st
+        sets_ = {'lt': ('Less',), 'le': ('Less', 'Equal'), 'gt': ('Greater',), 'ge': ('Greater', 'Equal')}[name]
+        return map_ite(o_, lambda l: C(1 if (l[0] == 'agg' and pdb.variant_name(ORDERING, l[1][2]) in sets_) else 0, 'bool')), st
+
     # ---- operator traits on primitives (possibly through references) ----------------------
     if dpath.startswith('core::ops::') and (path.startswith('core::ops::arith::') or path.startswith('core::ops::bit::') or
                                              path.startswith('core::internal_macros::') or ' as core::ops::' in path) \
@@ -1805,4 +1832,29 @@ def derived(ex, st, callee, cfn, args, f, term):
         b = ex.load(st, args[1])
         r = ex.structural_eq(a, b)
         return r if name == 'eq' else mk_not(r)
+    if tr in ('core::cmp::PartialOrd', 'core::cmp::Ord') and name in ('lt', 'le', 'gt', 'ge', 'cmp', 'partial_cmp'):
+        # derived ordering: by discriminant first, then field-wise lexicographic (only field-less enums and
+        # structs of integers are supported here)
+        adt = ex.pdb.adt(self_ty)
+        a_ = ex.load(st, args[0])
+        b_ = ex.load(st, args[1])
+        while a_[0] == 'ref':
+            a_ = ex.load(st, a_)
+        while b_[0] == 'ref':
+            b_ = ex.load(st, b_)
+        if adt['kind'] == 'enum' and all(not v['fields'] for v in adt['variants']):
+            ka, kb = ex.discriminant(a_), ex.discriminant(b_)
+        elif adt['kind'] == 'struct' and a_[0] == 'agg' and b_[0] == 'agg':
+            ka, kb = agg(('tuple',), a_[2]), agg(('tuple',), b_[2])
+            ka = agg(('tuple',), tuple(agg(('tuple',), f[2]) if (f[0] == 'agg' and f[1][0] == 'array') else f for f in a_[2]))
+            kb = agg(('tuple',), tuple(agg(('tuple',), f[2]) if (f[0] == 'agg' and f[1][0] == 'array') else f for f in b_[2]))
+        else:
+            raise Uncertified("derived ordering of %s" % self_ty)
+        o_ = lex_cmp(ex, ka, kb)
+        if name == 'cmp':
+            return o_
+        if name == 'partial_cmp':
+            return option_some(o_)
+        sets_ = {'lt': ('Less',), 'le': ('Less', 'Equal'), 'gt': ('Greater',), 'ge': ('Greater', 'Equal')}[name]
+        return map_ite(o_, lambda l: C(1 if ex.pdb.variant_name(ORDERING, l[1][2]) in sets_ else 0, 'bool'))
     raise Uncertified("derived %s::%s of %s reached by a call" % (tr, name, self_ty))
